@@ -57,9 +57,14 @@ def limits(db, ctx):
     st0 = None
     for st in sb.hir.get("stmts", []):
         e = st.get("e") or st.get("init")
-        if e is not None and not (e.get("mac") and any(m.startswith("debug_assert") for m in e["mac"])):
-            st0 = e
-            break
+        if e is None or (e.get("mac") and any(m.startswith("debug_assert") for m in e["mac"])):
+            continue
+        # pure `let x = <reads only>` statements in front of the guard do no work: skip them
+        if st.get("k") == "Let" and not any(x.get("k") in ("Assign", "AssignOp") or (x.get("k") == "MethodCall" and x.get("method") in ("push", "push_str", "extend", "clear", "insert"))
+                                            for x, _ in walk(e)):
+            continue
+        st0 = e
+        break
     ok = False
     prof = None
     if st0 and st0.get("k") == "If" and exit_kind(st0["then"]) == "err":
@@ -68,7 +73,11 @@ def limits(db, ctx):
         for p in (0, 1):
             v = eval3(st0["cond"], _bound_ev(isb, p))
             prof.append(bool(v))
-        ok = prof == [False, True] and mentions(st0["cond"], lambda x: x.get("k") == "Field" and x.get("name") == "original")
+        og0 = set()
+        for x, _ in walk(st0["cond"]):
+            if x.get("k") in ("Path", "Field", "MethodCall"):
+                og0 |= origins(db, sb, x, depth=0)
+        ok = prof == [False, True] and any(o[0] == "field" and o[2] == "original" for o in og0)
     ctx.ob("start_build|first-stmt-rejects-too-long", ok,
            "start_build's first statement is `%s`; rejects(len=MAX,len=MAX+1)=%s on self.original" % (render(st0)[:120] if st0 else None, prof), fn=sb)
     cm = db.one("commit", "InputBuffer")
